@@ -239,7 +239,8 @@ theorem InvG.replace {y : Sys} (h : InvG y) {c : Client} (c' : Client) (ca : Lis
   · intro en hen
     exact (hca en hen).2
 
-theorem InvG.nextG {y : Sys} (h : InvG y) (id : Nat) : InvG (nextG y id).1 := by
+theorem InvG.nextG {y : Sys} (h : InvG y) (id : Nat) (hz : ∀ c, getClient y id = some c → c.authz = .all) :
+    InvG (nextG y id).1 := by
   unfold CV.Stream.nextG CV.Stream.nextWith
   cases hg : getClient y id with
   | none => exact h
@@ -278,7 +279,7 @@ theorem InvG.nextG {y : Sys} (h : InvG y) (id : Nat) : InvG (nextG y id).1 := by
       cases hin : c.inbox with
       | nil => exact h
       | cons st rest =>
-        simp only
+        simp only [hz c hg, visible_all]
         have hs := h.sim c hc hsub
         rw [hin] at hs
         obtain ⟨-, -, hrest⟩ := hs
@@ -294,8 +295,8 @@ theorem InvG.expire {y : Sys} (h : InvG y) : InvG (expire y) := by
   unfold CV.Stream.expire
   exact ⟨h.wf, h.one, h.ib, h.hok, h.exact, h.sim, (by intro e he; cases he), (by intro e he; cases he), h.ids, h.qb, h.lb⟩
 
-theorem InvG.addClient {y : Sys} (h : InvG y) (id : Nat) (k : Key) (t : String) (r : Bool) :
-    InvG (addClient y id k t r) := by
+theorem InvG.addClient {y : Sys} (h : InvG y) (id : Nat) (k : Key) (t : String) (r : Bool) (a : Authz) :
+    InvG (addClient y id k t r a) := by
   unfold CV.Stream.addClient
   cases hg : getClient y id with
   | some c => simpa using h
